@@ -44,6 +44,9 @@ STRENGTHENED = {
     "C14-6": "C14: 'huge value' class (single puts of 260 KiB-1.5 MiB that a late-joining / restarted / lagging replica has to fetch)",
     "C15-6": "C15: 'reconnect_storm' fault class (streams registered and cancelled in a tight loop, heartbeat every 1-5 ms); a primary killed by the Go runtime is a violation",
     "C17-6": "C17: slow commits (delay in the storage wrapper) overlapped by a second finisher / CleanupConnection / sweep / shutdown; every registry and service call bounded through tracking proxies",
+    "C02-8": "C02 buffer-boundary class: the straddling record is a fragmented put whose FIRST fragment ends at the 64 KiB buffer boundary (file ends between two fragments), with an earlier cleanly closed lifetime in front",
+    "C04-7": "C04: sequential sub-check with SeekToLast inside generated transactions (own write at the greatest key); C05 caught it already",
+    "C04-8": "gen: writes that put back exactly the committed bytes (toggle/restore inside a transaction); C04 sequential sub-check (map model) next to the concurrent one",
     "C13-4": "C13: real Replica state machine with injected transient apply failures (error state -> recovery -> new stream)",
     "C15-4": "C15: primary with a pre-history (older log files in the directory) so that the ack path's retention pass has work to do",
 }
